@@ -31,7 +31,10 @@ def main (args : List String) : IO UInt32 := do
     loop (← IO.getStdin) runFormulaCase
     return 0
   | ["conv"] => do
-    loop (← IO.getStdin) runConvCase
+    loop (← IO.getStdin) (fun l => runConvCase l)
+    return 0
+  | ["convm"] => do
+    loop (← IO.getStdin) (fun l => runConvCase l true)
     return 0
   | ["brain"] => do
     loop (← IO.getStdin) runBrainCase
